@@ -879,6 +879,15 @@ func (s *session) startReadAndHandle() {
 		}
 		err = s.socket.ReadMessage(ctx.input)
 		if (err != nil && ctx.GetBodyCodec() == codec.NilCodecID) || !s.goonRead() {
+			if ctx.callCmd != nil {
+				// a reply was already bound to its call (whose lock is held since bindReply):
+				// complete that call here, otherwise it never completes and readDisconnected
+				// blocks on the lock this goroutine still holds
+				if err != nil && ctx.callCmd.stat.OK() {
+					ctx.callCmd.stat = statBadMessage.Copy(err)
+				}
+				ctx.handleReply()
+			}
 			s.peer.putContext(ctx, false)
 			return
 		}
